@@ -56,6 +56,7 @@ def check(ck):
     r13_6(ck)
     r13_7(ck)
     r13_8(ck)
+    r13_9(ck)
 
 
 def _tuple_consts(node):
@@ -628,6 +629,19 @@ def r13_7(ck):
             n += 1
             gets = [c for c in A.calls_in(loop, 'get')
                     if not c.args and not c.keywords]
+            # a lazy iterable (generator expression, map) fetches inside
+            # the loop as well
+            if isinstance(loop.iter, ast.Name):
+                for d in local_defs(f.node).get(loop.iter.id, []):
+                    v = d.value
+                    lazy = isinstance(v, ast.GeneratorExp) or (
+                        isinstance(v, ast.Call) and A.call_name(v) in (
+                            'map', 'zip', 'filter', 'iter'))
+                    if lazy:
+                        gets += [c for c in A.calls_in(v, 'get')
+                                 if not c.args and not c.keywords] or [v]
+            elif isinstance(loop.iter, ast.GeneratorExp):
+                gets += [loop.iter]
             ck.require(not gets, 'R13.7', f, loop,
                        'the apply loop fetches nothing (results were '
                        'collected before it)',
@@ -700,3 +714,19 @@ def r13_8(ck):
     st = [c for c in A.calls_in(pp.node, 'start')]
     ck.require(bool(st), 'R13.8', pp, pp.node.name,
                'the worker is started at construction', None)
+
+
+def r13_9(ck):
+    ck.rule('R13.9', 'the hierarchy and the engine hold the same (wrapped) '
+            'objects: every process and step reported by a structural '
+            'update is parallelised, written back into its store node and '
+            'registered (shared with C10 R10.2)')
+    from . import c10
+    c10.r10_2(ck)
+    for o in ck.obligations:
+        if o['rule'] == 'R10.2':
+            o['rule'] = 'R13.9'
+    for v in ck.violations:
+        if v.rule == 'R10.2':
+            v.rule = 'R13.9'
+    ck.rules.pop('R10.2', None)
